@@ -15,7 +15,7 @@ def main():
         pid = p["id"]
         modp = os.path.join(V, "tools", "props", pid.lower() + ".py")
         entry = None
-        if os.path.exists(modp):
+        if os.path.exists(modp) and pid in base.get("enabled", []):
             mod = importlib.import_module("props." + pid.lower())
             entry = getattr(mod, "MANIFEST_ENTRY", None)
         if entry:
